@@ -13,6 +13,8 @@ import (
 	"encoding/json"
 	"fmt"
 	"os"
+	"slices"
+	"strings"
 
 	"github.com/blinklabs-io/gouroboros/cbor"
 	"github.com/blinklabs-io/gouroboros/protocol"
@@ -154,7 +156,9 @@ func monitor(c *vh.Ctx) {
 		}
 	}
 	// version data round trip, every table, every version, all flag combinations
-	magics := []uint32{0, 1, 23, 24, 255, 256, 65535, 65536, 764824073, 2, 42, 1 << 31, 4294967295}
+	// includes pairs that agree in their low 8 / 16 / 24 bits (764824073 / 2912307721 = Cardano
+	// mainnet / Mithril DMQ mainnet), asked for one after the other in this process
+	magics := []uint32{0, 1, 23, 24, 255, 256, 65535, 65536, 764824073, 2912307721, 2, 42, 1 << 31, 4294967295, 1 + 1<<8, 1 + 1<<16, 1 + 1<<24, 2 + 1<<31}
 	for i := 0; i < c.Pick(20, 400); i++ {
 		magics = append(magics, uint32(c.Rng.U64()))
 	}
@@ -164,6 +168,10 @@ func monitor(c *vh.Ctx) {
 				dm, ps, q := fl&1 != 0, fl&2 != 0, fl&4 != 0
 				m := t.Gen(magic, dm, ps, q)
 				l := t.List()
+				if _, stale := m[999]; stale {
+					res.Violate("monitor", "version-map-changed-by-caller-mutation", fmt.Sprintf("the %s map generated for magic %d (flags %d) is a map an earlier caller was handed and has modified since", t.Name, magic, fl), map[string]any{"history": "monitor"})
+					continue
+				}
 				if len(m) != len(l) {
 					res.Violate("monitor", t.Name+"-map-keys-differ-from-list", fmt.Sprintf("generated %s map has %d versions, the list %d", t.Name, len(m), len(l)), nil)
 				}
@@ -203,9 +211,145 @@ func monitor(c *vh.Ctx) {
 						res.Violate("monitor", "vdata-roundtrip-query-"+t.Name, fmt.Sprintf("version %d: query %v decodes as %v", v, want.Q, got.Q), rp)
 					}
 				}
+				// the caller now modifies the map it was handed; later calls must not see it
+				for k := range m {
+					delete(m, k)
+				}
+				m[999] = protocol.VersionDataNtC9to14(magic ^ 0x55aa55aa)
 			}
 		}
 	}
+}
+
+// ---------------------------------------------------------------------------
+// histories over the version-table API.  The Coq model is a pure table, so
+// "every call returns the table" is implicit there; on the implementation it
+// is a fact about aliasing that only a call history can show: what a caller
+// does to a returned slice / map must not change what later calls return.
+
+// observe renders everything the version-table API returns.
+func observe() (lists map[string][]uint16, all string) {
+	lists = map[string][]uint16{}
+	for _, t := range vtab.Tables {
+		lists[t.Name] = slices.Clone(t.List())
+	}
+	s, err := vtab.GenCoq(true)
+	if err != nil {
+		s = "translator error: " + err.Error()
+	}
+	return lists, s
+}
+
+type mutation struct {
+	Name string
+	Do   func(l []uint16) []uint16 // returns what the caller ends up holding
+}
+
+var mutations = []mutation{
+	{"append(list, 16)", func(l []uint16) []uint16 { return append(l, 16) }},
+	{"append(list, 0xffff, 0, 0x8000)", func(l []uint16) []uint16 { return append(l, 0xffff, 0, 0x8000) }},
+	{"write into list[:cap(list)] beyond len", func(l []uint16) []uint16 {
+		f := l[:cap(l)]
+		for i := len(l); i < len(f); i++ {
+			f[i] = uint16(3 + i)
+		}
+		return f
+	}},
+	{"overwrite every element", func(l []uint16) []uint16 {
+		for i := range l {
+			l[i] = uint16(0xfff0 - i)
+		}
+		return l
+	}},
+	{"sort descending in place", func(l []uint16) []uint16 { slices.Reverse(l); return l }},
+	{"zero the first element", func(l []uint16) []uint16 {
+		if len(l) > 0 {
+			l[0] = 0
+		}
+		return l
+	}},
+}
+
+func firstDiff(a, b string) string {
+	la, lb := strings.Split(a, "\n"), strings.Split(b, "\n")
+	for i := 0; i < len(la) && i < len(lb); i++ {
+		if la[i] != lb[i] {
+			x, y := la[i], lb[i]
+			if len(x) > 160 {
+				x = x[:160]
+			}
+			if len(y) > 160 {
+				y = y[:160]
+			}
+			return fmt.Sprintf("line %d: before %q, after %q", i+1, x, y)
+		}
+	}
+	return fmt.Sprintf("%d lines before, %d after", len(la), len(lb))
+}
+
+func histories(c *vh.Ctx) {
+	res := c.Res
+	lists0, all0 := observe()
+	var hist []string
+	check := func() bool {
+		lists, all := observe()
+		ok := true
+		for _, t := range vtab.Tables {
+			if !slices.Equal(lists[t.Name], lists0[t.Name]) {
+				ok = false
+				res.Violate("monitor", "version-list-changed-by-caller-mutation",
+					fmt.Sprintf("after the call history %v the %s version list is %v; the first call returned %v", hist, t.Name, lists[t.Name], lists0[t.Name]),
+					map[string]any{"history": slices.Clone(hist), "list": t.Name})
+			}
+		}
+		if ok && all != all0 {
+			ok = false
+			res.Violate("monitor", "version-tables-changed-by-caller-mutation",
+				fmt.Sprintf("after the call history %v the version tables differ from the first observation: %s", hist, firstDiff(all0, all)),
+				map[string]any{"history": slices.Clone(hist)})
+		}
+		return ok
+	}
+	n := 0
+	for _, t := range vtab.Tables {
+		for _, mu := range mutations {
+			hist = append(hist, fmt.Sprintf("Get %s list; %s", t.Name, mu.Name))
+			mu.Do(t.List())
+			n++
+			res.Count("history:"+t.Name+":"+mu.Name, true, "history-list-mutation")
+			if !check() {
+				return // one corrupted state is enough; everything after it is corrupted too
+			}
+		}
+	}
+	// generated maps: the caller deletes / overwrites / adds entries
+	for _, t := range vtab.Tables {
+		for _, magic := range []uint32{764824073, 2912307721, 1} {
+			m := t.Gen(magic, true, false, false)
+			for k := range m {
+				if k%2 == 0 {
+					delete(m, k)
+				} else {
+					m[k] = protocol.VersionDataNtC9to14(12345)
+				}
+			}
+			m[999] = protocol.VersionDataNtC9to14(magic)
+			hist = append(hist, fmt.Sprintf("Generate %s map for magic %d; delete/overwrite/add entries", t.Name, magic))
+			res.Count(fmt.Sprintf("history:%s:map:%d", t.Name, magic), true, "history-map-mutation")
+			for k, d := range t.Gen(magic, true, false, false) {
+				if k == 999 || d == nil || d.NetworkMagic() != magic {
+					res.Violate("monitor", "version-map-changed-by-caller-mutation",
+						fmt.Sprintf("after the call history %v the %s map for magic %d has entry %d = %v", hist, t.Name, magic, k, d),
+						map[string]any{"history": slices.Clone(hist)})
+					return
+				}
+			}
+			if !check() {
+				return
+			}
+		}
+	}
+	res.Sample(map[string]any{"history_steps": len(hist), "last": hist[len(hist)-1]})
 }
 
 func fieldVariants(r *vh.Rng) []*vh.Item {
@@ -219,7 +363,7 @@ func fieldVariants(r *vh.Rng) []*vh.Item {
 }
 
 func run(c *vh.Ctx) error {
-	c.Res.Rule = "monitor: every version of the four tables x 13+N magics x 8 flag combinations through cbor.Encode and the version's own decoder; decoders: every decoder x {generated data of every shape, header re-encodings (non-minimal, indefinite), each field replaced by null/undefined/bool/uint boundary/other types, element counts 0..6, trailing bytes, truncations, random CBOR items}; distinct by decoder+input bytes; non-trivial = accepted, or longer than one byte"
+	c.Res.Rule = "call histories over the version-table API: every list getter x 6 caller mutations of the returned slice (append, write into spare capacity, overwrite, reverse), every generated map emptied/overwritten/extended by the caller, then every getter, GetProtocolVersion over all 65536 numbers and all generators observed again and compared with the first observation (the first observation of a fresh process is what the translator put into Gen.v); monitor: every version of the four tables x 13+N magics x 8 flag combinations through cbor.Encode and the version's own decoder; decoders: every decoder x {generated data of every shape, header re-encodings (non-minimal, indefinite), each field replaced by null/undefined/bool/uint boundary/other types, element counts 0..6, trailing bytes, truncations, random CBOR items}; distinct by decoder+input bytes; non-trivial = accepted, or longer than one byte"
 	c.Res.Modelled = []string{"fxamacker/cbor decoding rules for uint32/uint/bool/toarray-struct destinations are a hand model (C20.Model.decode), validated by the decoder correspondence; CBOR tags in front of a field are not modelled and not generated"}
 	cf := c.NewCaseFile("c20", header)
 	cf.SetShardSize(300)
@@ -239,11 +383,13 @@ func run(c *vh.Ctx) error {
 			cf.Flush()
 			return nil
 		}
-		// table-level findings have no per-case input: re-run the monitor
+		// table-level findings have no per-case input: re-run the monitor and the call histories
 		monitor(c)
+		histories(c)
 		return nil
 	}
 	monitor(c)
+	histories(c)
 
 	r := c.Rng
 	seen := map[string]bool{}
